@@ -201,6 +201,78 @@ def pred(item, c):
             ep = tf.fresnel_rp(n0, nc, t0, t1) ** 2 + fac * tf.fresnel_tp(n0, nc, t0, t1) ** 2
             worst = max(worst, abs(es - 1), abs(ep - 1))
         return worst <= TOL, f'fresnel_* on angle arrays vs scalars, and the energy identity with a complex index: {worst!r}'
+    if item == 'forms':
+        # the SAME stack handed over in another container / dtype / memory layout / scalar type must give the same r, t
+        base = [(float(n), float(d)) for n, d in c['stack']]
+        k = len(base)
+        w, aoi, amb = c['wavelength'], c['aoi'], c['ambient']
+        ref = tf.multilayer_stack_rt(base, w, c['pol'], aoi=aoi, ambient_index=amb)
+        form, tol = c['form'], TOL_BATCH
+        a64 = np.array(base, dtype=float)
+        if form == 'int_list':
+            st = [(int(n), int(d)) for n, d in base]
+        elif form == 'mixed_list':
+            st = [((int(n) if j % 2 == 0 else float(n)), (float(d) if j % 2 == 0 else int(d))) for j, (n, d) in enumerate(base)]
+        elif form == 'tuple_of_tuples':
+            st = tuple(tuple(x) for x in base)
+        elif form == 'list_of_lists':
+            st = [list(x) for x in base]
+        elif form == 'list_of_arrays':
+            st = [np.array(x) for x in base]
+        elif form.startswith('dtype:'):
+            dt = np.dtype(form[6:])
+            st = a64.astype(dt)
+            if dt in (np.dtype('float32'), np.dtype('complex64'), np.dtype('float16')):
+                tol = 2e-5 if dt != np.dtype('float16') else 5e-2      # the Snell angles are then computed in that precision
+                ref = tf.multilayer_stack_rt([(complex(x).real, complex(y).real) for x, y in st.astype(complex)], w, c['pol'], aoi=aoi, ambient_index=amb)
+        elif form == 'fortran':
+            st = np.asfortranarray(a64)
+        elif form == 'transposed':
+            st = np.ascontiguousarray(a64.T).T
+        elif form == 'strided':
+            big = np.zeros((2 * k, 4)); big[::2, ::2] = a64
+            st = big[::2, ::2]
+        elif form == 'negstride':
+            st = np.ascontiguousarray(a64[::-1, ::-1])[::-1, ::-1]
+        elif form == 'readonly':
+            st = a64.copy(); st.setflags(write=False)
+        elif form.startswith('scalars:'):
+            ty = {'float32': np.float32, 'float64': np.float64, 'int64': np.int64, 'int32': np.int32, 'int': int}[form[8:]]
+            st = base
+            ok_int = float(aoi).is_integer() and float(amb).is_integer()
+            w2 = ty(w) if ty in (np.float32, np.float64) else w
+            aoi2, amb2 = (ty(aoi), ty(amb)) if (ok_int or ty in (np.float32, np.float64)) else (aoi, amb)
+            if ty is np.float32:
+                tol = 2e-5
+            got = tf.multilayer_stack_rt(st, w2, c['pol'], aoi=aoi2, ambient_index=amb2)
+            e = max(_rel(complex(got[0]), complex(ref[0])), _rel(complex(got[1]), complex(ref[1])))
+            return e <= tol, f'scalar arguments as {form[8:]}: differs from python floats by {e!r}'
+        elif form.startswith('batch:'):
+            # (k, 2, B) arrays in the given dtype / layout; element b repeats the stack with thickness scaled by (1 + b)
+            B = 3
+            arr = np.stack([np.stack([a64[:, 0], a64[:, 1] * (1 + b)], axis=1) for b in range(B)], axis=2)
+            kind = form[6:]
+            if kind == 'fortran':
+                st = np.asfortranarray(arr)
+            elif kind == 'strided':
+                big = np.zeros((k, 2, 2 * B)); big[:, :, ::2] = arr
+                st = big[:, :, ::2]
+            else:
+                st = arr.astype(np.dtype(kind))
+                if np.dtype(kind) in (np.dtype('float32'), np.dtype('complex64')):
+                    tol = 2e-5
+            got = tf.multilayer_stack_rt(st, w, c['pol'], aoi=aoi, ambient_index=amb)
+            worst = 0.0
+            for b in range(B):
+                sl = [(float(np.real(st[j, 0, b])), float(np.real(st[j, 1, b]))) for j in range(k)]
+                rb = tf.multilayer_stack_rt(sl, w, c['pol'], aoi=aoi, ambient_index=amb)
+                worst = max(worst, _rel(complex(got[0][b]), complex(rb[0])), _rel(complex(got[1][b]), complex(rb[1])))
+            return worst <= tol, f'batched stack as {kind}: differs from the per-element float stacks by {worst!r}'
+        else:
+            raise KeyError(form)
+        got = tf.multilayer_stack_rt(st, w, c['pol'], aoi=aoi, ambient_index=amb)
+        e = max(_rel(complex(got[0]), complex(ref[0])), _rel(complex(got[1]), complex(ref[1])))
+        return e <= tol, f'stack given as {form}: r,t = {complex(got[0])!r}, {complex(got[1])!r}; as a list of float tuples {complex(ref[0])!r}, {complex(ref[1])!r} (differ by {e!r})'
     if item == 'history':
         # the SAME caller-owned ndarray is evaluated repeatedly; results must not depend on earlier calls and the
         # caller's data must be left untouched
@@ -300,6 +372,27 @@ def _gen_stack(rng, k, absorbing=False):
     return {'stack': stack, 'wavelength': wvl, 'aoi': aoi, 'ambient': amb}
 
 
+def _gen_ftir(rng):
+    """dense ambient, a thin rare gap in which the wave is evanescent (n0 sin(aoi) > n_gap), dense propagating exit;
+    optionally a propagating film in front of / behind the gap.  The gap is kept thin (<= 0.4 wavelengths) so that the
+    transmitted amplitude stays O(1e-3) or larger."""
+    amb = round(float(rng.uniform(1.5, 2.6)), 3)
+    ngap = round(float(rng.uniform(1.0, 1.35)), 3)
+    crit = math.degrees(math.asin(ngap / amb))
+    aoi = round(float(rng.uniform(1.03 * crit, min(85.0, 1.6 * crit))), 2)
+    sig = amb * math.sin(math.radians(aoi))
+    wvl = round(float(rng.uniform(0.4, 2.0)), 3)
+    nexit = round(float(rng.uniform(max(1.5, sig / 0.95), max(1.6, sig / 0.95) + 1.5)), 3)
+    stack = []
+    if rng.random() < 0.5:
+        stack.append([round(float(rng.uniform(sig / 0.9, sig / 0.9 + 1.5)), 3), 0.0, round(float(rng.uniform(0, 0.8)), 4)])
+    stack.append([ngap, 0.0, round(float(rng.uniform(0.02, 0.4)) * wvl, 4)])
+    if rng.random() < 0.5:
+        stack.append([round(float(rng.uniform(sig / 0.9, sig / 0.9 + 1.5)), 3), 0.0, round(float(rng.uniform(0, 0.8)), 4)])
+    stack.append([nexit, 0.0, round(float(rng.uniform(0, 1.0)), 4)])
+    return {'stack': stack, 'wavelength': wvl, 'aoi': aoi, 'ambient': amb}
+
+
 def _stack_line(c):
     parts = ['stack', c['pol'], C.f2w(c['ambient']), C.f2w(np.radians(c['aoi'])), C.f2w(c['wavelength'])]
     for nr, ni, d in c['stack']:
@@ -310,6 +403,7 @@ def _stack_line(c):
 def correspondence(ctx):
     tf = _tf()
     rng = ctx.rng
+    ftir = []
     widen = 3 if ctx.widen else 1
     # ------------------------------------------------ build all cases first, then one driver call
     ifaces = [_gen_interface(rng) for _ in range(ctx.scale(400, 20000) * widen)]
@@ -426,6 +520,43 @@ def correspondence(ctx):
             case['d'] = np.minimum(d, 0.3).tolist()
         _check(ctx, 'batch', case, tag=f'shape{bs}/k{k}/{"normal" if aoi == 0 else "oblique"}/{"complex" if "k" in case else "real"}')
 
+    # ------------------------------------------------ the same stack in every container / dtype / layout / scalar type
+    forms = ['int_list', 'mixed_list', 'tuple_of_tuples', 'list_of_lists', 'list_of_arrays', 'dtype:int64', 'dtype:int32', 'dtype:int16',
+             'dtype:uint8', 'dtype:float32', 'dtype:float64', 'dtype:complex64', 'dtype:complex128', 'dtype:longdouble', 'fortran',
+             'transposed', 'strided', 'negstride', 'readonly', 'scalars:float32', 'scalars:float64', 'scalars:int64', 'scalars:int32',
+             'scalars:int', 'batch:int64', 'batch:float32', 'batch:complex128', 'batch:fortran', 'batch:strided', 'batch:int32']
+    for i in range(ctx.scale(len(forms) * 2, len(forms) * 40) * widen):
+        form = forms[i % len(forms)]
+        k = 1 + (i // len(forms)) % 5
+        # integer-valued indices and thicknesses, so that every integer form holds exactly the same numbers
+        ns = [int(rng.integers(1, 5)) for _ in range(k)]
+        ds = [int(rng.integers(0, 3)) for _ in range(k)]
+        amb = int(rng.integers(1, 3)) if min(ns) >= 2 else 1
+        smax = min(0.97 * min(ns) / amb, math.sin(math.radians(89)))
+        lim = math.degrees(math.asin(smax))
+        aoi = float(rng.choice([float(int(rng.uniform(5, lim))) if lim > 6 else round(lim / 2, 2), round(rng.uniform(0.2 * lim, lim), 2)]))
+        case = {'stack': [[n, d] for n, d in zip(ns, ds)], 'wavelength': float(rng.choice([0.5, 0.75, 1.25])), 'pol': 'sp'[i % 2],
+                'aoi': aoi, 'ambient': float(amb), 'form': form}
+        _check(ctx, 'forms', case, nontrivial=(len(set(ns + [amb])) > 1), tag=form)
+
+    # ------------------------------------------------ frustrated total reflection: an evanescent gap between propagating media
+    for i in range(ctx.scale(60, 3000) * widen):
+        c = _gen_ftir(rng)
+        c['pol'] = 'sp'[i % 2]
+        ftir.append(c)
+    ftir_rep = iter(C.lean_driver('C17', [_stack_line(c) for c in ftir]))
+    for c in ftir:
+        mr, mi, tr, ti = [C.w2f(x) for x in next(ftir_rep).split()]
+        ctx.case('stack_ftir', c, tag=f'k{len(c["stack"])}/{c["pol"]}')
+        try:
+            r, t = _call_stack(c['stack'], c['wavelength'], c['pol'], c['aoi'], c['ambient'])
+        except Exception as ex:
+            ctx.disagree('stack_ftir', c, f'raised {type(ex).__name__}: {ex}', [mr, mi, tr, ti])
+            continue
+        if not (_rel(r, complex(mr, mi)) <= TOL and _rel(t, complex(tr, ti)) <= TOL):
+            ctx.disagree('stack_ftir', c, [r, t], [complex(mr, mi), complex(tr, ti)])
+        _check(ctx, 'stack_energy', c, tag=f'ftir/{c["pol"]}')
+
     # ------------------------------------------------ histories: one caller-owned ndarray, many evaluations
     hshapes = [(), (4,), (2, 3)]
     for i in range(ctx.scale(60, 1200) * widen):
@@ -490,6 +621,15 @@ def _small_scope():
                                 'aoi': 30.0, 'ambient': 1.0, 'pos': 1, 'n_ins': 1.7}
     yield 'batch', {'n': [[1.4, 1.6], [1.5, 1.5]], 'k': [[0.3, 0.7], [0.0, 0.0]], 'd': [[0.1, 0.2], [1.0, 1.0]], 'wavelength': 0.6,
                     'pol': 's', 'aoi': 20.0, 'ambient': 1.0}
+    for st in ([[2, 0]], [[2, 1], [4, 0]], [[3, 2], [2, 1], [4, 1]]):
+        for aoi in (40.0, 20.0):
+            for form in ('int_list', 'dtype:int64', 'dtype:int16', 'mixed_list', 'dtype:float32', 'dtype:complex128', 'fortran', 'strided',
+                         'negstride', 'list_of_arrays', 'scalars:int64', 'scalars:float32', 'batch:int64', 'batch:float32', 'batch:fortran'):
+                for pol in 'sp':
+                    yield 'forms', {'stack': st, 'wavelength': 0.5, 'pol': pol, 'aoi': aoi, 'ambient': 1.0, 'form': form}
+    for gap in (0.05, 0.2):
+        for pol in 'sp':
+            yield 'stack_energy', {'stack': [[1.0, 0.0, gap], [1.8, 0.0, 1.0]], 'wavelength': 0.6, 'pol': pol, 'aoi': 50.0, 'ambient': 1.8}
     for (nn, dd) in (([1.38, 1.5], [0.1, 1.0]), ([[1.38, 1.6], [1.5, 1.5]], [[0.1, 0.2], [1.0, 1.0]])):
         for aoi in (0.0, 30.0):
             yield 'history', {'n': nn, 'd': dd, 'pols': ['s', 'p', 's'], 'wavelengths': [0.5, 0.5, 0.5], 'aoi': aoi, 'ambient': 1.0}
